@@ -190,6 +190,7 @@ def build_history_app():
     return ConsoleApplication(config), log
 
 
+TTY = "@tty "
 LINES = [
     # valid
     "foo a", "foo a b --num=3 -f", "fo a -k 4", "foo bar", "foo bar zz --opt", "multi 1 2 3 -t p -t q", "grp", "grp add it",
@@ -205,12 +206,16 @@ LINES = [
     # error message) is gone with that run
     # (closing tags are spelled in two pieces: this file is itself the source of frames rendered by the trace checks, and
     # unbalanced markup in a source line is the known C20 finding mismatched-tags-in-source)
+    # the kind of stream of one run (terminal / pipe) is that run's business
+    TTY + "foo a", TTY + "foo a --no-ansi", TTY + "nope",
     "style", "usezz", "style --ansi", "usezz --ansi", "'<" + "/info>' --ansi", "'<error>' --ansi", "'<" + "/info>' --no-ansi",
 ]
 LINES = list(dict.fromkeys(LINES))
 
 def line_class(line):
     toks = line.split()
+    if toks[:1] == [TTY.strip()]:
+        toks = toks[1:]
     if toks[:1] == ["help"] or "--help" in toks or "-h" in toks:
         return "help"
     if "--version" in toks or "-V" in toks:
@@ -224,6 +229,15 @@ def run_one(app, log, line, args=None):
     from clikit.io.output_stream import BufferedOutputStream
 
     out, err = BufferedOutputStream(), BufferedOutputStream()
+    if line.startswith(TTY):
+        # this run writes to streams that announce ANSI support (a terminal); the others to plain buffers (a pipe)
+        line = line[len(TTY):]
+
+        class Capable(BufferedOutputStream):
+            def supports_ansi(self):
+                return True
+
+        out, err = Capable(), Capable()
     if args is None:
         args = StringArgs(line)
     before = len(log)
@@ -292,7 +306,7 @@ def check_rawargs_reuse(line):
     from clikit.args import StringArgs
 
     fails = []
-    args = StringArgs(line)
+    args = StringArgs(line[len(TTY):] if line.startswith(TTY) else line)
     tokens = list(args.tokens)
     app, log = build_history_app()
     first = run_one(app, log, line, args)
